@@ -75,8 +75,10 @@ def run_config(prop, preds, cfg, tag, simulate=None, report=None):
     else:
         r = None
     if r is None:
+        _t = time.time()
         r = _run_config(prop, cfg, tag, simulate)
         r["cache_hit"] = False
+        r["run_wall_s"] = round(time.time() - _t, 1)
         # prune old cache entries of this tag
         for f in os.listdir(cdir):
             if f.startswith(tag + "-") and os.path.join(cdir, f) != cpath:
@@ -208,6 +210,7 @@ def decide(prop, preds, runs, tier, t0, level_note=""):
                         "depth": cfg.max_depth, "calls_in_lattice": len(cfg.calls),
                         "leaves_replayed": r["leaves"], "mismatches": r["mismatches"],
                         "memoised_on_tree_digest": r.get("cache_hit", False),
+                        "explore_replay_wall_s": r.get("run_wall_s"),
                         "mismatch_samples": r["mismatch_samples"]} for cfg, r in runs],
         "checker_cmd": runs[0][1]["tlc"].cmd if runs else "",
     }
